@@ -19,7 +19,7 @@
    parameters, no parameter called, no global variable named like a function. *)
 From Verif Require Import Lib.Base Model.Resolver Proofs.Resolver Proofs.ResolverSound
   Proofs.ResolverExact Proofs.ResolverOrder Proofs.ResolverFlat Proofs.ResolverNoPanic
-  Proofs.ResolverTopo Proofs.ResolverBound Proofs.ResolverLoop Proofs.ResolverMain Proofs.ResolverCutoff Model.ResolverFrame Proofs.ResolverFrame.
+  Proofs.ResolverTopo Proofs.ResolverBound Proofs.ResolverLoop Proofs.ResolverMain Proofs.ResolverCutoff Model.ResolverFrame Proofs.ResolverFrame Proofs.ResolverVisit.
 
 (* SOUND.  Whatever the processing order: if the resolver accepts, the types it
    returns satisfy every usage constraint, and every demand the compiler makes
@@ -198,6 +198,26 @@ Print Assumptions C16_frame_shape.
 (* function f(  a, b): two missing array parameters, p.arrays of length 3: slots 3 and 4 *)
 Example C16_ex_two_missing : call_arrays 0 [] 2 [7; 8; 9] = ([3; 4]%nat, [7; 8; 9; 0; 0]).
 Proof. reflexivity. Qed.
+
+(* NO OCCURRENCE IS SKIPPED.  Every variable use that occurs anywhere in an event
+   of a function body or of the top level, however deeply nested in call
+   arguments, is a step the visitor runs and contributes its constraint to the
+   specification (with soundness: the accepted types satisfy it). *)
+Theorem C16_all_uses_visited : forall (e : event) (v : name) (t : ty),
+  In (v, t) (uses_of e) -> In (SUse v t) (flat_event e).
+Proof. exact all_uses_visited. Qed.
+Print Assumptions C16_all_uses_visited.
+
+Theorem C16_use_in_body_constrains : forall P fd e v t,
+  In fd (p_funcs P) -> In e (f_body fd) -> In (v, t) (uses_of e) ->
+  In (CIs (scope_key P (f_name fd) v) t) (constraints P).
+Proof. exact use_in_body_constrains. Qed.
+Print Assumptions C16_use_in_body_constrains.
+
+Theorem C16_use_in_main_constrains : forall P e v t,
+  In e (p_main P) -> In (v, t) (uses_of e) -> In (CIs (scope_key P [] v) t) (constraints P).
+Proof. exact use_in_main_constrains. Qed.
+Print Assumptions C16_use_in_main_constrains.
 
 (* non-vacuity *)
 Example C16_ex_oracle : perm_oracle (seed_oracle 3).
